@@ -235,7 +235,7 @@ func Words(w *vt.W, seed int64, n int, big bool) {
 	if big {
 		all = 7
 	}
-	for k := 1; k <= all; k++ {
+	for k := 2; k <= all; k++ {
 		for km := 0; km < pow4(k); km++ {
 			w.Emit(Word(k, km))
 		}
